@@ -20,11 +20,10 @@ PID = "C16"
 KEY = {
     "alloczero": "extents/count-vs-eof/zero-length-buffer-internal-error",
     "mplexseek": "extents/count-vs-eof/mplex-lookback-reseek-range-error",
-    "empty2": "extents/count-vs-eof/second-input-empty",
     "unaligned": "extents/count-vs-eof/multirate-unaligned-start",
     "mplexrate": "extents/count-vs-eof/mplex-multirate",
 }
-PRIO = ["alloczero", "mplexseek", "empty2", "unaligned", "mplexrate"]
+PRIO = ["alloczero", "mplexseek", "unaligned", "mplexrate"]
 K_CLAMP = "extents/eof-bof-clamped-inside-nested-phase"
 K_BOFPHASE = "extents/bof-of-fields-with-phase"
 K_IMAG = "extents/imaginary-part-of-real-field-ignores-eof"
@@ -80,6 +79,7 @@ def main():
     chk = vlib.Check(PID)
     G.load_staged_known(chk, PID)
     t0 = time.time()
+    tr_problems = G.read_variant(chk)
     proved = chk.prove("Properties_C16")
     chk.cov["trusted_base"] += [
         "Coq 8.16.1 kernel, vm_compute (no native_compute)",
@@ -251,6 +251,9 @@ def main():
                        "flimits.c model and the documented extents; for every window the returned count against min(n, max(0, gd_eof - s)); "
                        "gd_nframes against the reference field's file; distinct_nontrivial = distinct (violated clauses, clamped?, returned, expected, return type)")
     chk.cov["distribution"] = {k: v for k, v in st.items() if k != "sigs"}
+    if tr_problems and not chk.violations:
+        chk.violation("translator", "the source matches neither variant of the model: " + "; ".join(tr_problems[:3]),
+                      {"kind": "translator", "problems": tr_problems}, found=False)
     if not proved and not chk.violations:
         chk.violation("proof", "Properties_C16 does not check: " + getattr(chk, "proof_log", "")[-1500:],
                       {"kind": "proof", "theorem": "Properties_C16", "log": getattr(chk, "proof_log", "")[-4000:]}, found=False)
